@@ -294,6 +294,13 @@ impl Drop for Node {
     fn drop(&mut self) {
         let mut nodes = mem::take(&mut *self.children.borrow_mut());
         while let Some(node) = nodes.pop() {
+            // A descendant that is still referenced from elsewhere (for example from the
+            // tree builder's stack of open elements) outlives this subtree: it keeps its
+            // children and becomes the root of a detached tree.
+            if Rc::strong_count(&node) > 1 {
+                node.parent.set(None);
+                continue;
+            }
             let children = mem::take(&mut *node.children.borrow_mut());
             nodes.extend(children);
             if let NodeData::Element {
